@@ -199,6 +199,16 @@ CHECKS = {
             "Host ABI (SysV x86-64 + ms_abi) only; long double is left out (no 80-bit float in Rust); C++ methods and foreign-target "
             "symbol decoration are not generated; a crash of the caller is attributed to its whole library.",
             "6/C04"),
+    "C16": ("exploration",
+            "exhaustive enumeration of static / static-inline function signatures over the C04 alphabet x suffix x path x input mode "
+            "x language; the emitted wrapper source is compiled by clang, its symbols listed by nm, and a rustc-built caller linked "
+            "with it executes every binding",
+            "For every static function the emitted wrapper source must compile against the headers, define exactly one external "
+            "<name><suffix> per function that received a binding (variadic statics: none), and calling the binding must produce the "
+            "result and the global side effect that the argument fold specifies (the same fold C04 validates against compiled C).",
+            "Host target only; va_list parameters are not generated; a failure to build or run the caller is attributed to the "
+            "whole library.",
+            "6/C16"),
 }
 
 PENDING = set()  # built but unchanged-tree findings not yet triaged: not claimed until the quick tier is clean
